@@ -373,6 +373,19 @@ theorem setSuccessors_spec {t : CompactTableBuilder} {D : List (Nat × Row)} (hs
 
 /-! ### `build`, `eval` -/
 
+theorem unique_row {D : List (Nat × Row)} (hd : (D.map (·.1)).Nodup) {s : Nat} {row row' : Row}
+    (h1 : (s, row) ∈ D) (h2 : (s, row') ∈ D) : row' = row := by
+  induction D with
+  | nil => cases h1
+  | cons e D ih =>
+    simp only [List.map_cons, List.nodup_cons] at hd
+    rcases List.mem_cons.1 h1 with rfl | h1' <;> rcases List.mem_cons.1 h2 with h2' | h2'
+    · cases h2'; rfl
+    · exact absurd (List.mem_map.2 ⟨(s, row'), h2', rfl⟩) hd.1
+    · cases h2'
+      exact absurd (List.mem_map.2 ⟨(s, row), h1', rfl⟩) hd.1
+    · exact ih hd.2 h1' h2'
+
 /-- the table `build` returns when the largest base is `mx` -/
 def buildWith (t : CompactTableBuilder) (mx : Nat) : CompactTable :=
   { numStates := t.numStates, alphabetSize := t.alphabetSize, default := t.default, base := t.base,
@@ -444,20 +457,7 @@ theorem build_spec {t : CompactTableBuilder} {D : List (Nat × Row)} (hs : Shape
           · omega
           · -- the owner is `s` itself: same row, same base, same character
             subst g5
-            have hrow : row' = row := by
-              have hd := hc.distinct
-              -- two entries of `D` with the same state
-              clear h3 hst hgood
-              induction D with
-              | nil => cases hsr
-              | cons e D ih =>
-                simp only [List.map_cons, List.nodup_cons] at hd
-                rcases List.mem_cons.1 hsr with rfl | h1' <;> rcases List.mem_cons.1 g1 with h2' | h2'
-                · cases h2'; rfl
-                · exact absurd (List.mem_map.2 ⟨(x, row'), h2', rfl⟩) hd.1
-                · cases h2'
-                  exact absurd (List.mem_map.2 ⟨(x, row), h1', rfl⟩) hd.1
-                · exact ih h1' h2' hd.2
+            have hrow : row' = row := unique_row hc.distinct hsr g1
             subst hrow
             rw [g3] at h1
             cases h1
